@@ -1,5 +1,6 @@
 """C06 - incremental update is sound: marked changes are never missed (generator half)."""
 import re
+import os
 import sir
 import emitseq as es
 import prectables as pt
@@ -452,6 +453,133 @@ def tuple_partner_rule(ctx):
     return obs
 
 
+def wave8_rules(ctx):
+    """obligations added after the eighth wave of seeded changes"""
+    import json as _json
+    import guards as G
+    from exprmodel import ExprModel, arm_table
+    ob = ctx.ob
+    tc = ctx.tc
+    obs = []
+    # (1) the group prefix lists every accumulated sub-path: the loop runs over the list it was given and writes every element
+    for f in tc.fns:
+        if not f.body or f.module[:2] != ["proc_gen", "expr"]:
+            continue
+        lits = [p_[1] for n in sir.walk(f.body) for p_ in ((sir.write_fmt_call(n) or (None, []))[1]) if p_[0] == "lit"]
+        lits += [n["v"] for n in sir.walk(f.body) if n.get("k") == "lit" and n.get("t") == "str"]
+        if not any(l.startswith("!!") for l in lits):
+            continue
+        pn = [x for x in f.param_names() if x]
+        gs = G.guards_of(f.body)
+        loops = [n for n in sir.walk(f.body) if n.get("k") == "for" and any(x.get("k") == "mcall" and x["m"] == "to_path_analysis_str" for x in sir.walk(n["body"]))]
+        if not loops:
+            obs.append(ob("C06.runtime/group-prefix/complete", None, ctx.where(f), "no loop over the sub-paths in a form this rule reads"))
+            continue
+        probs = []
+        if len(loops) > 1:
+            probs.append("the sub-paths are rendered in %d loops (one of them filters what the other writes)" % len(loops))
+        for lp in loops:
+            root = sir.root_expr_name(lp["e"])
+            if root not in pn:
+                probs.append("the loop runs over `%s`, not over the list handed in" % sir.expr_str(lp["e"])[:40])
+            if any(x.get("k") in ("continue", "break") for x in sir.walk(lp["body"], into_closures=False)):
+                probs.append("an element can be skipped (`continue`/`break` in the loop)")
+            inner = G.guards_of(lp["body"])
+            for x in sir.walk(lp["body"]):
+                if x.get("k") == "mcall" and x["m"] == "to_path_analysis_str":
+                    cs = [sir.expr_str(subj)[:40] for kind, subj, pol in inner.get(id(x), []) if kind == "cond" and not re.fullmatch(r"\w+\s*(>|!=)\s*0", sir.expr_str(subj))]
+                    if cs:
+                        probs.append("an element is rendered only under %s" % cs[:2])
+        obs.append(ob("C06.runtime/group-prefix/complete", not probs, ctx.where(f), "every accumulated sub-path is rendered into the prefix" if not probs else "; ".join(sorted(set(probs))),
+                      witness=None if not probs else "fmt(user.name, user): marking user.age does not re-evaluate the binding"))
+    # (2) per kind of path slice, the operator tokens of the update-tree expression are the reviewed ones
+    pf = [f for f in tc.fns if f.name == "to_path_analysis_str" and f.base == "PathSliceList" and f.body]
+    try:
+        ref = _json.load(open(os.path.join(os.path.dirname(os.path.dirname(os.path.abspath(__file__))), "refs", "path_tree_tokens.json")))["arms"]
+    except (OSError, ValueError, KeyError):
+        ref = None
+    if pf and ref:
+        TOK = re.compile(r"[!=]==\w+\|\||!!|Q\.\w\(|Object\.assign|[A-Z]\(|undefined|\btrue\b|\?|:|\|\|")
+        f = pf[0]
+        seen = set()
+        for a in sir.walk(f.body):
+            if a.get("k") != "arm":
+                continue
+            vs = [v for v in sir.pat_variants(a["pat"]) if v in ref]
+            if not vs:
+                continue
+            lits = []
+            for n in sir.walk_reach(tc, f) if False else sir.walk(a["body"]):
+                w = sir.write_fmt_call(n)
+                pcs = w[1] if w else (sir.format_call(n) or [])
+                lits += [p_[1] for p_ in pcs if p_[0] == "lit"]
+                if n.get("k") == "lit" and n.get("t") == "str" and not w:
+                    lits.append(n["v"])
+            toks = sorted(set(t for l in lits for t in TOK.findall(l)))
+            for v in vs:
+                seen.add(v)
+                okv = toks == ref[v]
+                obs.append(ob("C06.runtime/tree-tokens/%s" % v, okv, ctx.where(f), "operator tokens %s" % toks if okv else "operator tokens %s; reviewed: %s" % (toks, ref[v]),
+                              witness=None if okv else "wx:for=\"{{ [...a, b] }}\": a partial change below the spread operand is no longer seen"))
+        for v in sorted(set(ref) - seen):
+            obs.append(ob("C06.runtime/tree-tokens/%s" % v, None, ctx.where(f), "no arm for %s found in a form this rule reads" % v))
+    # (3) the end-of-path helper records every path it is handed
+    h = [f for f in tc.fns if f.name == "to_proc_gen_rec_and_end_path" and f.body]
+    if h:
+        f = h[0]
+        gs = G.guards_of(f.body)
+        pushes = [n for n in sir.walk(f.body) if n.get("k") == "mcall" and n["m"] == "push"]
+        extra = []
+        for p_ in pushes:
+            for kind, subj, pol in gs.get(id(p_), []):
+                t = sir.expr_str(subj) if kind == "cond" else subj[1]
+                if kind == "pat" and "InPath" in t and pol:
+                    continue
+                extra.append(t[:50])
+        ok = bool(pushes) and not extra
+        obs.append(ob("C06.paths/end-path-helper/unconditional", ok, ctx.where(f), "every InPath state is pushed to the accumulator" if ok else "a path is recorded only under %s" % extra[:2],
+                      witness=None if ok else "f([a, b]) is guarded by the callee alone: marking `a` does not re-evaluate it"))
+    # (4) a conditional always yields a Condition slice that carries both branches (their sub-paths live there)
+    model = ExprModel(tc)
+    import prectables as pt
+    g = pt.main_expression_fn(tc, model, "proc_gen")
+    if g is not None:
+        genf, gm, _n = g
+        table = arm_table(gm, model)
+        if "Cond" in table:
+            arm, _c = table["Cond"][0]
+            tail = arm["body"]
+            while tail.get("k") == "block" and tail["stmts"]:
+                last = tail["stmts"][-1]
+                tail = last["e"] if last.get("k") == "expr" else last
+            leaves = []
+
+            def collect(e_):
+                if e_.get("k") == "match":
+                    for a_ in e_["arms"]:
+                        b_ = a_["body"]
+                        while b_.get("k") == "block" and b_["stmts"]:
+                            l_ = b_["stmts"][-1]
+                            b_ = l_["e"] if l_.get("k") == "expr" else l_
+                        collect(b_)
+                elif e_.get("k") == "if" and e_.get("else") is not None:
+                    for br in (e_["then"], e_["else"]):
+                        b_ = br
+                        while b_.get("k") == "block" and b_["stmts"]:
+                            l_ = b_["stmts"][-1]
+                            b_ = l_["e"] if l_.get("k") == "expr" else l_
+                        collect(b_)
+                else:
+                    leaves.append(e_)
+            collect(tail)
+            def has_condition(e_):
+                return any((x.get("k") == "path" and x["segs"][-1] == "Condition") or (x.get("k") == "mac" and "Condition" in (x.get("raw") or "")) for x in sir.walk(e_))
+            bad = [sir.expr_str(l_)[:50] for l_ in leaves if not has_condition(l_)]
+            obs.append(ob("C06.paths/Cond/result", not bad and bool(leaves), ctx.where(genf), "a conditional always yields a Condition slice holding both branches" if not bad else "on some path the conditional yields %s: the sub-paths of its branches are discarded" % bad[:2],
+                          witness=None if not bad else "a ? b + 1 : c + 1 is guarded by `a` alone"))
+    return obs
+
+
 def run(ctx):
     obs = runtime_rule(ctx)
     obs += guard_rule(ctx)
@@ -459,6 +587,7 @@ def run(ctx):
     obs += scopes_rule(ctx)
     obs += dropped_text_rule(ctx)
     obs += tuple_partner_rule(ctx)
+    obs += wave8_rules(ctx)
     # the update entry uses the binding map whenever a field is advertised: what disables a field is part of update soundness
     from rules.c07 import collector_rule
     for x in collector_rule(ctx):
